@@ -287,6 +287,26 @@ def _parser_memo(R):
              "src/parsing/parser.rs", nontrivial=False)
 
 
+def _whitespace_kinds(R, tf):
+    """C20.space: between tokens any kind of whitespace is skipped - the test is char::is_whitespace (CR, form feed, NBSP .. included),
+    not a hand-picked list of characters"""
+    R.rule("C20.space", "the tokenizer decides `skip this character` with char::is_whitespace applied to the character just read (every "
+                        "kind of whitespace and line break separates tokens alike)")
+    ws = [c for c in tf.calls if re.search(r"^core::char::methods::<impl char>::is_whitespace$", short(c.name)) and c.args and
+          any(o.kind == "call" and re.search(r"next_char$|Iterator>::next$", short(o.call.name)) for o in F.origins(tf, c.args[0], depth=10))]
+    if not ws:
+        R.violation("C20.space", "tokenize|whitespace-test", "tokenize no longer tests the character it read with char::is_whitespace: only "
+                    "some kinds of whitespace separate tokens now (a CR of a CRLF line ending, a form feed or a no-break space becomes part "
+                    "of a token or an error), so two layouts of one statement parse differently", [tf.loc()])
+        return
+    g = PR.bool_guard(tf, ws[0])
+    adds = [c for c in tf.calls if short(c.name) == "alloc::vec::Vec::push" and "ParserToken" in " ".join(c.func.get("res_targs") or c.targs or [])]
+    if g is not None and not any(PR.dominated_by_edge(tf, c.bb, g[0], g[1]) for c in adds):
+        R.ok("C20.space", "tokenize", "is_whitespace(current) => nothing is emitted", ws[0].loc())
+    else:
+        R.violation("C20.space", "tokenize|whitespace-emits", "a token is emitted on the is_whitespace edge", [ws[0].loc()])
+
+
 def run(R):
     _parser_memo(R)
     P = R.prog
@@ -403,6 +423,7 @@ def run(R):
     # ---- verbatim string literals
     tf = R.need_fn("sqlgrep::parsing::tokenizer::tokenize")
     _char_counter_slices(R, tf)
+    _whitespace_kinds(R, tf)
     pushes = [c for c in tf.calls if short(c.name) == "alloc::string::String::push"]
     folds = [c for c in tf.calls if LOWER.search(short(c.name))]
     # the push into current_str: receiver derives from the Option<String> named current_str
